@@ -131,6 +131,7 @@ def templates(tier="quick"):
         ninja_op(j=1), ninja_op(j=3),
         ninja_op(j=3, faults={"a": {"code": 1}}),
         ninja_op(j=3, faults={"build.ninja": {"code": 1}}),
+        ninja_op(j=3, faults={"build.ninja": {"code": 7}}),
     ]
     files = {"build.ninja.in": va.manifest(), "s": "s-v0\n"}
     T.append(scenario("manifest_regen/fresh", "template", [va, vb], files=files, ops=ops, init=[], depth=2,
